@@ -69,6 +69,21 @@ def extension_model(base):
     doc["notifications"].append({"method": "verifExt/zeta", "typeName": "VerifExtZetaNotification", "params": {"kind": "reference", "name": "VerifExtZetaParams"}, "messageDirection": "clientToServer"})
     doc["notifications"].append({"method": "verifExt/alpha", "typeName": "VerifExtAlphaNotification", "params": {"kind": "reference", "name": "VerifExtAlphaParams"}, "messageDirection": "serverToClient"})
     doc["requests"].append({"method": "verifExt/mu", "typeName": "VerifExtMuRequest", "params": {"kind": "reference", "name": "VerifExtMuParams"}, "result": S("null"), "messageDirection": "clientToServer"})
+    # two method strings that map to the same constant / class-name stem, and declarations of the first file declared again
+    doc["notifications"].append({"method": "$/verifExt/zeta", "typeName": "VerifExtDollarZetaNotification", "params": {"kind": "reference", "name": "VerifExtZetaParams"}, "messageDirection": "both"})
+    import copy as _copy
+    for e in base.get("enumerations", [])[:40]:
+        if e["name"] in ("MarkupKind", "LanguageKind", "TextDocumentSaveReason"):
+            e2 = _copy.deepcopy(e)
+            e2["values"].append({"name": "VerifExtra", "value": "verifextra" if e["type"]["name"] == "string" else 99})
+            doc["enumerations"].append(e2)
+            break
+    for st in base.get("structures", []):
+        if st["name"] in ("Position", "TextDocumentItem", "WorkspaceFolder"):
+            s2 = _copy.deepcopy(st)
+            s2["properties"].append({"name": "verifExtra", "type": S("string"), "optional": True})
+            doc["structures"].append(s2)
+            break
     doc["requests"].append({"method": "verifExt/beta", "typeName": "VerifExtBetaRequest", "params": {"kind": "reference", "name": "VerifExtBetaParams"}, "result": {"kind": "reference", "name": "VerifExtBetaParams"}, "messageDirection": "both"})
     return doc
 
